@@ -124,13 +124,36 @@ func checkC18(c C18Case, rec *obs.Recorder) *obs.Violation {
 	}
 
 	// saving is refused once the authorizer has been evaluated
+	// ... and having been saved does not change the original: it still behaves like an authorizer
+	// with the same content that was never saved
+	twin, err := newAuthz(b1, pub, c.Authz)
+	if err != nil {
+		return obs.Violf("T1 does not verify: %v", err)
+	}
 	if c.Dirty == "query" && len(c.Queries) > 0 {
-		_, _ = orig.Query(bridge.ToRule(c.Queries[0]))
+		if k1, k2 := queryKey(orig, c.Queries[0]), queryKey(twin, c.Queries[0]); k1 != k2 {
+			return obs.ViolK("saved-original", "%s: query %s on the authorizer that was saved: {%s}; on an authorizer with the same content that was never saved: {%s}", desc, c.Queries[0].Text(), k1, k2)
+		}
 	} else {
-		_ = orig.Authorize()
+		if o1, o2 := bridge.Authorize(orig), bridge.Authorize(twin); o1.String() != o2.String() {
+			return obs.ViolK("saved-original", "%s: the authorizer that was saved gives %s (%s); an authorizer with the same content that was never saved gives %s (%s)", desc, o1, o1.Err, o2, o2.Err)
+		}
+		for _, q := range c.Queries {
+			if k1, k2 := queryKey(orig, q), queryKey(twin, q); k1 != k2 {
+				return obs.ViolK("saved-original", "%s: query %s after Authorize on the authorizer that was saved: {%s}; never saved: {%s}", desc, q.Text(), k1, k2)
+			}
+		}
 	}
 	if _, err := orig.SerializePolicies(); err == nil {
 		return obs.Violf("%s: SerializePolicies succeeded after the authorizer was evaluated (%s)", desc, c.Dirty)
+	}
+	// loading a snapshot into an evaluated authorizer does not make it unevaluated
+	if lerr, pan := loadSafely(orig, snap); pan != nil {
+		return obs.ViolK("panic", "%s: LoadPolicies on the evaluated authorizer panicked: %v", desc, pan)
+	} else if lerr == nil {
+		if _, err := orig.SerializePolicies(); err == nil {
+			return obs.ViolK("save-after-load", "%s: the authorizer was evaluated (%s), then loaded with its own snapshot: SerializePolicies succeeds although the authorizer has been evaluated", desc, c.Dirty)
+		}
 	}
 
 	// malformed snapshots: an error, never a panic
@@ -269,7 +292,7 @@ func drawC18(t *rapid.T) C18Case {
 func TestC18(t *testing.T) {
 	rec := obs.New("C18")
 	defer rec.Flush(true)
-	rec.SetExtra("rule", "rapid: goal-directed authorizer content (all term types with non-empty sets, default and fresh symbols, 0-3 checks, 0-4 ordered policies of both kinds), token T1 with its own symbols where the snapshot is taken, token T2 (reloaded from bytes) where it is loaded, a panel of 3 queries, and one malformed snapshot (random bytes, bit flip, truncation, empty, version absent/2/4, policy without or with unknown kind, set of variables, operator without kind, term without content, out-of-range indexes; written with the independent writer). Oracle: the snapshot decodes independently to the right number of elements; fresh authorizer for T2 + LoadPolicies has the same Authorize class and panel answers as fresh authorizer for T2 + the content added directly; SerializePolicies fails after Authorize or Query; LoadPolicies on malformed bytes returns an error (where the bytes are certainly malformed) and never panics, nor does a later Authorize. Non-trivial = a fresh symbol, >= 1 check, >= 2 policies and an outcome other than no-matching-policy; distinct by (T1, T2, content).")
+	rec.SetExtra("rule", "rapid: goal-directed authorizer content (all term types with non-empty sets, default and fresh symbols, 0-3 checks, 0-4 ordered policies of both kinds), token T1 with its own symbols where the snapshot is taken, token T2 (reloaded from bytes) where it is loaded, a panel of 3 queries, and one malformed snapshot (random bytes, bit flip, truncation, empty, version absent/2/4, policy without or with unknown kind, set of variables, operator without kind, term without content, out-of-range indexes; written with the independent writer). Oracle: the snapshot decodes independently to the right number of elements; fresh authorizer for T2 + LoadPolicies has the same Authorize class and panel answers as fresh authorizer for T2 + the content added directly; the authorizer that was saved, evaluated afterwards, gives the same outcome and panel answers as a never-saved twin; SerializePolicies fails after Authorize or Query, and still fails after the evaluated authorizer has loaded its own snapshot; LoadPolicies on malformed bytes returns an error (where the bytes are certainly malformed) and never panics, nor does a later Authorize. Non-trivial = a fresh symbol, >= 1 check, >= 2 policies and an outcome other than no-matching-policy; distinct by (T1, T2, content).")
 	rec.SetExtra("assumptions", []string{"non-empty sets only: empty sets are refused by the encoder by design"})
 	harness.RunWith(t, harness.Spec[C18Case]{ID: "C18", Draw: drawC18, Check: checkC18}, rec)
 }
